@@ -49,9 +49,16 @@ def apply_item(repo, item):
         f, old, new, _ = MUTANTS[item]
         path = os.path.join(repo, f)
         s = open(path).read()
-        if s.count(old) != 1:
-            return f"catalogue pattern matches {s.count(old)} times"
-        open(path, "w").write(s.replace(old, new))
+        olds, news = (old, new) if isinstance(old, list) else ([old], [new])
+        for o in olds:
+            if s.count(o) != 1:
+                return f"catalogue pattern matches {s.count(o)} times"
+        # simultaneous replacement
+        for k, o in enumerate(olds):
+            s = s.replace(o, f"@@MUT{k}@@")
+        for k, n in enumerate(news):
+            s = s.replace(f"@@MUT{k}@@", n)
+        open(path, "w").write(s)
         return None
     r = sh("git", "-C", repo, "apply", os.path.abspath(item))
     return None if r.returncode == 0 else r.stdout[-300:]
